@@ -116,5 +116,7 @@ pub fn run(args: &Args) {
         out.case("pairhist", &case.coq(), &r.obs, case.json());
     }
     crate::routerstream::run_stream(&mut out, "C15", &mut rng, args.n / 2);
+    // three-asset pool histories (native and cw20 offers with max spreads): spread monitors in the pool-history runner
+    crate::c04_pool::pool_histories(&mut out, &mut rng, (args.n / 2).max(30));
     out.finish();
 }
